@@ -13,7 +13,7 @@ from typing import TYPE_CHECKING, Literal
 
 import libcst as cst
 
-from pynguin.assertion.assertion import ExceptionAssertion
+from pynguin.assertion.assertion import ExceptionAssertion, ReferenceAssertion
 from pynguin.utils import randomness
 
 if TYPE_CHECKING:
@@ -596,6 +596,12 @@ class TestCase:  # noqa: PLR0904
         for i in range(len(self._statements) - 1, -1, -1):
             stmt = self._statements[i]
             bv = stmt.bound_variable
+            # The statement's assertions run right after it and read their sources.
+            alive_vars.update(
+                assertion.source
+                for assertion in stmt.assertions
+                if isinstance(assertion, ReferenceAssertion)
+            )
 
             if bv is not None:
                 if bv in alive_vars:
@@ -606,7 +612,8 @@ class TestCase:  # noqa: PLR0904
                     # Variable is NOT used later. Transform Assign to Expr.
                     new_node = self._transform_assign_to_expr(stmt.node)
                     if new_node is not stmt.node:
-                        self._statements[i] = Statement(
+                        self._statements[i] = dataclasses.replace(
+                            stmt,
                             node=new_node,
                             bound_variable=None,
                             bound_type=None,
